@@ -73,40 +73,19 @@ Fixpoint dt_export (d : dtype) (v : pyval) {struct d} : res pyval :=
       array_check minlen maxlen v >>= fun _ =>
       match py_iter v with
       | None => Err EType
-      | Some items =>
-          (fix go (l : list pyval) : res (list pyval) :=
-             match l with
-             | [] => Ok []
-             | x :: r => dt_export elem x >>= fun y => go r >>= fun ys => Ok (y :: ys)
-             end) items >>= fun ys => Ok (PList ys)
+      | Some items => map_res (dt_export elem) items >>= fun ys => Ok (PList ys)
       end
   | TTuple elems =>
       tuple_check (length elems) v >>= fun _ =>
       match py_iter v with
       | None => Err EType
-      | Some items =>
-          (fix go (ds : list dtype) (l : list pyval) : res (list pyval) :=
-             match ds, l with
-             | d1 :: ds', x :: r => dt_export d1 x >>= fun y => go ds' r >>= fun ys => Ok (y :: ys)
-             | _, _ => Ok []
-             end) elems items >>= fun ys => Ok (PList ys)
+      | Some items => mapd_res dt_export elems items >>= fun ys => Ok (PList ys)
       end
   | TStruct members optional client =>
+      (* check_type(value) without allow_optional: on the node every member is required *)
       struct_check (map fst members) optional client false v >>= fun _ =>
       if negb (is_dict v) then Err EAttr
-      else
-        (fix go (kv : list (str * pyval)) (acc : list (str * pyval)) : res (list (str * pyval)) :=
-           match kv with
-           | [] => Ok acc
-           | (k, x) :: r =>
-               (fix find (ms : list (str * dtype)) : res (list (str * pyval)) :=
-                  match ms with
-                  | [] => Err EKey
-                  | (n, d1) :: ms' =>
-                      if str_eqb k n then dt_export d1 x >>= fun y => go r (dict_set k y acc)
-                      else find ms'
-                  end) members
-           end) (dict_items v) [] >>= fun kv => Ok (PDict kv)
+      else struct_fold dt_export false members (dict_items v) [] >>= fun kv => Ok (PDict kv)
   end.
 
 End WithCodec.
